@@ -443,6 +443,13 @@ pub fn add_venv(rng: &mut Rng, spec: &mut WsSpec, names: &[String]) {
         spec.third_party_files.push(rel);
         spec.extra.push((format!("{}/pytest_bar-0.9.dist-info/entry_points.txt", sp), "[pytest11]\nbar = pytest_bar\n".to_string()));
     }
+    // an installed library that ships fixtures in a module no entry point registers (its own test helpers): not a plugin,
+    // so nothing in the workspace sees them
+    if rng.chance(300) {
+        let rel = format!("{}/otherlib/testing_helpers.py", sp);
+        spec.files.push(PyFile { rel, items: vec![Item::Fixture(Fx { func: "lib_internal_fixture".into(), ..Default::default() }), Item::Fixture(Fx { func: rng.pick(names).clone(), ..Default::default() })] });
+        spec.files.push(PyFile { rel: format!("{}/otherlib/__init__.py", sp), items: vec![] });
+    }
     // pytest built-ins
     if rng.chance(600) {
         let rel = format!("{}/_pytest/fixtures.py", sp);
